@@ -367,8 +367,24 @@ VLex(r) ==
             THEN Rej("LEXER token list differs", <<>>)
         ELSE Acc
 
+(* ---- the parser (coverage beyond the listed properties): Parser.tla ---------------------------- *)
+PRS == INSTANCE Parser
+\* r.out: "ok" | "raise"; r.kind: the exception class as one of the model's kinds; r.ast: the query built,
+\* read off the real objects.  The model's "lexer" is Lexer.backup() (JSONPathSyntaxError) or
+\* ignore_whitespace() (JSONPathLexerError) raising; "numbig": the model does not say.
+VPCompile(r) ==
+    LET ic == PRS!ImplCompile(r.q, RegOf(r), LoOf(r), HiOf(r))
+    IN  IF ~ic.ok /\ ic.kind = "numbig" THEN Acc
+        ELSE IF ic.ok # (r.out = "ok") THEN
+            Rej("PARSER outcome differs from Parser.tla", <<IF ic.ok THEN "ok" ELSE ic.kind, IF r.out = "ok" THEN "ok" ELSE r.kind>>)
+        ELSE IF ~ic.ok /\ ic.kind # r.kind /\ ~(ic.kind = "lexer" /\ r.kind = "syntax") THEN
+            Rej("PARSER error class differs from Parser.tla", <<ic.kind, r.kind>>)
+        ELSE IF ic.ok /\ ic.v # r.ast THEN Rej("PARSER the query built differs from Parser.tla", <<ToJson(ic.v)>>)
+        ELSE Acc
+
 Verdict(r) ==
     CASE r.op = "compile" -> VCompile(r)
+      [] r.op = "pcompile" -> VPCompile(r)
       [] r.op = "lex"     -> VLex(r)
       [] r.op = "t1"      -> VT1(r)
       [] r.op = "anchor_find"  -> VAnchorFind(r)
